@@ -38,7 +38,6 @@ const (
 type Process struct {
 	sync.Mutex
 	globalEnv           []string
-	confMtx             sync.Mutex
 	procConf            *types.ProcessConfig
 	procState           *types.ProcessState
 	stateMtx            sync.Mutex
@@ -163,10 +162,13 @@ loop:
 			break
 		}
 		p.setState(types.ProcessStateRestarting)
+		p.stateMtx.Lock()
 		p.procState.Restarts += 1
-		verif.Obs("restarts %s %d", p.getName(), p.procState.Restarts)
+		restarts := p.procState.Restarts
+		p.stateMtx.Unlock()
+		verif.Obs("restarts %s %d", p.getName(), restarts)
 		log.Info().Msgf("Restarting %s in %v second(s)... Restarts: %d",
-			p.getName(), p.getBackoff().Seconds(), p.procState.Restarts)
+			p.getName(), p.getBackoff().Seconds(), restarts)
 
 		verif.Park("backoff")
 		select {
@@ -323,7 +325,7 @@ func (p *Process) isRestartable() bool {
 		if p.procConf.RestartPolicy.MaxRestarts == 0 {
 			return true
 		}
-		return p.procState.Restarts < p.procConf.RestartPolicy.MaxRestarts
+		return p.getRestarts() < p.procConf.RestartPolicy.MaxRestarts
 	}
 
 	// TODO consider if forking daemon should disable RestartPolicyAlways
@@ -331,10 +333,34 @@ func (p *Process) isRestartable() bool {
 		if p.procConf.RestartPolicy.MaxRestarts == 0 {
 			return true
 		}
-		return p.procState.Restarts < p.procConf.RestartPolicy.MaxRestarts
+		return p.getRestarts() < p.procConf.RestartPolicy.MaxRestarts
 	}
 
 	return false
+}
+
+func (p *Process) getRestarts() int {
+	p.stateMtx.Lock()
+	defer p.stateMtx.Unlock()
+	return p.procState.Restarts
+}
+
+func (p *Process) getHealth() string {
+	p.stateMtx.Lock()
+	defer p.stateMtx.Unlock()
+	return p.procState.Health
+}
+
+func (p *Process) setHealth(health string) {
+	p.stateMtx.Lock()
+	defer p.stateMtx.Unlock()
+	p.procState.Health = health
+}
+
+func (p *Process) getPid() int {
+	p.stateMtx.Lock()
+	defer p.stateMtx.Unlock()
+	return p.procState.Pid
 }
 
 func (p *Process) waitForStarted() {
@@ -359,7 +385,7 @@ func (p *Process) waitForCompletion() int {
 func (p *Process) waitUntilReady() bool {
 	verif.Await("wait:ready", func() bool { return p.procReadyCtx.Err() != nil })
 	<-p.procReadyCtx.Done()
-	if p.procState.Health == types.ProcessHealthReady {
+	if p.getHealth() == types.ProcessHealthReady {
 		return true
 	}
 	log.Error().Msgf("Process %s was aborted and won't become ready", p.getName())
@@ -664,8 +690,8 @@ func (p *Process) handleOutput(pipe io.ReadCloser, output string, handler func(m
 				Msgf("error reading from %s", output)
 			break
 		}
-		if p.procConf.ReadyLogLine != "" && p.procState.Health == types.ProcessHealthUnknown && strings.Contains(line, p.procConf.ReadyLogLine) {
-			p.procState.Health = types.ProcessHealthReady
+		if p.procConf.ReadyLogLine != "" && p.getHealth() == types.ProcessHealthUnknown && strings.Contains(line, p.procConf.ReadyLogLine) {
+			p.setHealth(types.ProcessHealthReady)
 			p.readyLogCancelFn(nil)
 			verif.Obs("logready %s", p.getName())
 		}
@@ -745,6 +771,15 @@ func (p *Process) getState() *types.ProcessState {
 	return p.procState
 }
 
+// getStateSnapshot returns a copy of the state record taken under the state mutex (the record
+// itself is written by the process goroutine, the probes and the output readers)
+func (p *Process) getStateSnapshot() types.ProcessState {
+	p.updateProcState()
+	p.stateMtx.Lock()
+	defer p.stateMtx.Unlock()
+	return *p.procState
+}
+
 type filterFn func(*types.ProcessState)
 
 func (p *Process) getStateData(filter filterFn) {
@@ -775,7 +810,7 @@ func (p *Process) onStateChange(state string) {
 	verif.Obs("state %s %s", p.getName(), state)
 	switch state {
 	case types.ProcessStateSkipped:
-		p.setExitCode(1)
+		p.setExitCodeLocked(1)
 	case types.ProcessStateRestarting:
 		fallthrough
 	case types.ProcessStateLaunching:
@@ -849,15 +884,15 @@ func (p *Process) onLivenessCheckEnd(_, isFatal bool, err string) {
 
 func (p *Process) onReadinessCheckEnd(isOk, isFatal bool, err string) {
 	if isFatal {
-		p.procState.Health = types.ProcessHealthNotReady
+		p.setHealth(types.ProcessHealthNotReady)
 		log.Info().Msgf("%s is not ready anymore - %s", p.getName(), err)
 		p.logBuffer.Write("Error: readiness check fail - " + err)
 		_ = p.internalStop()
 	} else if isOk {
-		p.procState.Health = types.ProcessHealthReady
+		p.setHealth(types.ProcessHealthReady)
 		p.readyCancelFn()
 	} else {
-		p.procState.Health = types.ProcessHealthNotReady
+		p.setHealth(types.ProcessHealthNotReady)
 	}
 }
 
@@ -890,8 +925,9 @@ func (p *Process) getOpenPorts(ports *types.ProcessPorts) error {
 		log.Err(err).Msgf("failed to get open ports for %s", p.getName())
 		return err
 	}
+	pid := p.getPid()
 	for _, e := range socks {
-		if e.Process != nil && e.Process.Pid == p.procState.Pid {
+		if e.Process != nil && e.Process.Pid == pid {
 			log.Debug().Msgf("%s is listening on %d", p.getName(), e.LocalAddr.Port)
 			ports.TcpPorts = append(ports.TcpPorts, e.LocalAddr.Port)
 		}
@@ -900,14 +936,19 @@ func (p *Process) getOpenPorts(ports *types.ProcessPorts) error {
 }
 
 func (p *Process) getExitCode() int {
-	defer p.confMtx.Unlock()
-	p.confMtx.Lock()
+	defer p.stateMtx.Unlock()
+	p.stateMtx.Lock()
 	return p.procState.ExitCode
 }
 
 func (p *Process) setExitCode(code int) {
-	defer p.confMtx.Unlock()
-	p.confMtx.Lock()
+	defer p.stateMtx.Unlock()
+	p.stateMtx.Lock()
+	p.setExitCodeLocked(code)
+}
+
+// setExitCodeLocked expects the state mutex to be held
+func (p *Process) setExitCodeLocked(code int) {
 	p.procState.ExitCode = code
 	verif.Obs("exit %s %d", p.getName(), code)
 }
